@@ -234,6 +234,26 @@ def run(ctx, rep):
     # everything a declaration writes in the table is taken back with it
     rep.rule('R17.6', 'taking a failed line\'s declarations back restores every piece of state a declaration writes (no cached count or index left behind)')
     check_reset_covers_define(ctx, rep, 'R17.6')
+    # the constant pool is kept across lines: what counts as `the same constant` decides whether a later line gets its own
+    rep.rule('R17.7', 'the constant pool kept across lines merges only equal values: equality compares tags first, immediates (function descriptors: entry AND frame size) by the whole word, heap values by content')
+    from rules import shared as _sh, c15 as _c15
+    _sh.check_object_eq(F, rep, 'R17.7', _c15.heap_types(ctx))
+    # between two lines only the outermost scope of the global context is open: what a successful line opens it closes
+    rep.rule('R17.8', 'a successful line leaves the scope structure as it found it: block scopes and function contexts are closed on every normal path (the next line declares into the outermost scope again, and a later rollback cuts back to it)')
+    from rules import csa_run as _cr
+    R_ = _cr.analyse(ctx)
+    b91 = [v_ for v_ in R_['violations'] if v_['oblig'] == 'R09.1']
+    for v_ in b91:
+        rep.bad('R17.8', 'compiler::Compiler::' + v_['method'], v_['construct'], v_['text'], 'src/compiler.rs', key=v_['kc'])
+    seen_ = set()
+    for a_ in R_['arms']:
+        if a_['method'] in ('compile_block_statement',) or a_['trace'].startswith('Expr::Function'):
+            k_ = (a_['method'], a_['trace'])
+            if k_ in seen_:
+                continue
+            seen_.add(k_)
+            if not any(v_['method'] == a_['method'] and v_['construct'].startswith(a_['trace']) for v_ in b91):
+                rep.good('R17.8', 'compiler::Compiler::' + a_['method'], 'pairing on ' + a_['trace'], 'balanced on this path', 'src/compiler.rs')
     # what a line stored stays stored: the session's variables are only ever grown or overwritten slot by slot
     rep.rule('R17.5', 'the persistent fields of the VM are never cut back (a failing line keeps the assignments it completed)')
     SHRINK_ = ('::truncate', '::clear', '::pop', '::remove', '::swap_remove', '::drain', '::split_off', '::retain', '::set_len', 'mem::take', 'mem::replace', 'mem::swap')
